@@ -21,7 +21,7 @@ from hypothesis import strategies as st
 from hv.gen import vocab
 
 STREAMS = [7, 20, 24, 28]
-EPOCHS = [0, 1000, 10**9, 1_700_000_000_000_000]
+EPOCHS = [0, 1000, 10**9, 1_700_000_000_000_000, 100, 32_700, 2**31 - 40]  # 100 / 32700: stamps cross the int8 / int16 range
 
 
 def pick(draw, seq):
@@ -66,6 +66,7 @@ class Opts:
         self.rank_vocab = None  # optional list of (op_names, kernel_names), one per rank (cycled)
         self.body_fn = None  # optional (draw, opts, streams) -> items: replaces the top-level body of the main thread
         self.annotations = True
+        self.annotation_weight = 1  # out of 6: how often an operator node is a user annotation instead
         self.template = False
         self.min_kernels = 0
         self.kernel_names: Optional[List[str]] = None
@@ -118,9 +119,13 @@ def leaf_rt(draw, o: Opts) -> Dict[str, Any]:
 def op_node(draw, o: Opts, streams: List[int], depth: int, names: Optional[List[str]] = None) -> Dict[str, Any]:
     cat = "cpu_op"
     pool = names or o.op_names or vocab.CPU_OPS
-    if o.annotations and depth >= 0 and pick(draw, [False] * 5 + [True]):
+    if o.annotations and depth >= 0 and pick(draw, [True] * o.annotation_weight + [False] * (6 - o.annotation_weight)):
         cat, pool = "user_annotation", [a for a in vocab.USER_ANNOTATIONS if a != "## backward ##"]
     kids = draw(body(o, streams, depth + 1)) if depth < o.max_depth else []
+    if cat == "user_annotation" and kids and pick(draw, [False, False, False, True]):
+        # an empty annotation nested first inside the annotation (events without graph nodes, nested)
+        kids.insert(0, {"t": "op", "name": pick(draw, ["loss", "optimizer"]), "cat": "user_annotation", "pre": 0, "post": 0,
+                        "min": pick(draw, [1, 2]), "kids": []})
     return {"t": "op", "name": pick(draw, pool), "cat": cat, "pre": pick(draw, SMALL), "post": pick(draw, SMALL),
             "min": pick(draw, ([0] if o.p_zero_op > 0 else []) + [1, 1, 2, 4] if not kids else [0]), "kids": kids}
 
@@ -418,10 +423,14 @@ def sim_case(draw, o: Optional[Opts] = None, max_ranks: int = 2, same_steps: boo
     first_step = pick(draw, [0, 3, 100])
     ranks = []
     pad_case = o.random_pad and o.pad_entries == 0 and pick(draw, [False] * 7 + [True])
+    # correlation ids: usually 1000*(rank+1)+k; sometimes small or just below a dtype boundary (narrow column dtypes)
+    corr_base = o.corr_base if o.corr_base is not None or not o.random_pad else pick(draw, [None] * 5 + [0, 100, 32_700])
     for r in range(nranks):
         o_r = o
         if pad_case:
             o_r = Opts(**{**o.__dict__, "pad_entries": pick(draw, [130, 140])})
+        if corr_base is not None:
+            o_r = Opts(**{**o_r.__dict__, "corr_base": corr_base})
         if o.rank_vocab:
             ops_r, kern_r = o.rank_vocab[r % len(o.rank_vocab)]
             o_r = Opts(**{**o_r.__dict__, "op_names": ops_r, "kernel_names": kern_r})
